@@ -255,6 +255,9 @@ func runCases(t *testing.T, rep *ev.Report, set string, inj []reverseproxy.Heade
 	if res.Panic != nil {
 		rep.HarnessError("panic in batch %s: %v\n%s", set, res.Panic, res.Stack)
 	}
+	if res.Hang != "" {
+		rep.Violate(map[string]any{"kind": "hang"}, map[string]any{"hang": res.Hang}, "the exchange never completed: %s", res.Hang)
+	}
 	if res.Deadlock != "" {
 		rep.HarnessError("batch %s: goroutines left blocked: %s", set, res.Deadlock)
 	}
@@ -353,9 +356,9 @@ func TestCheck(t *testing.T) {
 		}
 	}
 	type batch struct {
-		set     string
-		inj     []reverseproxy.HeaderInjector
-		cases   []reqCase
+		set      string
+		inj      []reverseproxy.HeaderInjector
+		cases    []reqCase
 		defaults bool
 	}
 	var batches []batch
